@@ -192,14 +192,15 @@ theorem cleanWrite (hR : 0 < R) {seen : List Nat} {w1 wE : World} (hinv : DInv R
       unfold V0 at hV0
       rw [hne y hyf, readStamp_congr _ hfs] at hV0
       exact (hinv.j y hy hV0 hyck hyg hyo row hrow ht).mono hsettled hfs hrules
-    · intro z hz
+    · intro z hz hex
       by_cases hzf : z = f
       · subst hzf
         rw [hself] at hz ⊢
-        exact ⟨hfail, by rw [readStamp_congr _ hfs]; exact hst⟩
+        exact .inr ⟨hfail, .inl (by rw [readStamp_congr _ hfs]; exact hst)⟩
       · rw [hne z hzf] at hz ⊢
         rw [readStamp_congr _ hfs]
-        exact hinv.ov z hz
+        rw [existsF_congr _ hfs] at hex
+        exact hinv.ov z hz hex
     · intro z hz
       by_cases hzf : z = f
       · subst hzf; rw [hself]; exact hfail
@@ -213,7 +214,7 @@ theorem cleanWrite (hR : 0 < R) {seen : List Nat} {w1 wE : World} (hinv : DInv R
 theorem unfailWrite {seen : List Nat} {w : World} (hinv : DInv R cyc w) (f : Nat) (r : Rec) (ch : Nat) (old : DStamp)
     (hsnap : SnapRel R cyc w f r) (hfail : r.failed = none) (hch : r.changed = some ch)
     (hck : isCheckedR r R = false) (hst : r.stamp = some old) (hne : old ≠ readStamp w f)
-    (hseen : f ∉ seen) (hp2 : f ∈ cyc → ch ≠ R) :
+    (hmiss : existsF w f = false) (hseen : f ∉ seen) (hp2 : f ∈ cyc → ch ≠ R) :
     DStep R cyc seen w (setRec w f { r with isGenerated := false, failed := some 0 }) ∧
     DInv R cyc (setRec w f { r with isGenerated := false, failed := some 0 }) := by
   have hcur_ch : (getRec w R f).changed = some ch := by rw [← hsnap.changed]; exact hch
@@ -314,16 +315,13 @@ theorem unfailWrite {seen : List Nat} {w : World} (hinv : DInv R cyc w) (f : Nat
       unfold V0 at hV0
       rw [hnez y hyf] at hV0
       exact (hinv.j y hy hV0 hyck hyg hyo row hrow ht).mono hsettled rfl rfl
-    · intro z hz
+    · intro z hz hex
       by_cases hzf : z = f
       · subst hzf
-        rw [hself] at hz
-        have h1 : (getRec w R z).isOverride = true := by rw [← hsnap.ovr]; exact hz
-        have := (hinv.ov z h1).2
-        rw [← hsnap.stamp] at this
-        exact absurd this hstne
+        have hex' : existsF w z = true := hex
+        rw [hmiss] at hex'; cases hex'
       · rw [hnez z hzf] at hz ⊢
-        exact hinv.ov z hz
+        exact hinv.ov z hz hex
     · intro z hz
       by_cases hzf : z = f
       · subst hzf
